@@ -147,9 +147,30 @@ class WaveDriver:
         time.sleep(self.period)
         return a == self.sample(include_display=True)
 
+    def _diagnose(self):
+        try:
+            lines = []
+            known = {t.native_id: t.name for t in threading.enumerate()}
+            for tid in os.listdir("/proc/self/task"):
+                if int(tid) in self.excluded_tids:
+                    continue
+                try:
+                    sc = open(f"/proc/self/task/{tid}/syscall").read().strip()[:60]
+                except OSError as e:
+                    sc = repr(e)
+                lines.append(f"tid {tid} ({known.get(int(tid), '?')}): parked={probe(int(tid))} syscall={sc}")
+            print("vmon.quiesce: no quiescent state after many rounds; released=%d passed=%d hold=%s\n  %s" % (
+                self.released, self.passed, self.hold, "\n  ".join(lines)), file=sys.stderr, flush=True)
+        except Exception as e:  # pragma: no cover
+            print("vmon.quiesce: diagnose failed", e, file=sys.stderr)
+
     def wait_quiescent(self):
         prev = None
+        spins = 0
         while not self.stopping:
+            spins += 1
+            if spins == 60000:
+                self._diagnose()
             with self.lock:
                 pending = self.released - self.passed
             if pending > 0:
@@ -245,6 +266,9 @@ class WaveDriver:
                         # e.g. the caller waits (untimed) for a bundled observer's display thread, which wakes on a timer
                         time.sleep(self.period)
                         continue
+                    if self.run_done or self.stopping:
+                        # the caller left run() meanwhile and is parked joining THIS thread: it set the flags before parking
+                        return
                     # every engine thread is parked in an untimed wait, no call is held by the harness,
                     # run() has not returned: nothing can ever move again.
                     if self.on_deadlock is not None:
